@@ -377,6 +377,15 @@ def enc_input(v):
         base[22] = val
         return base, ['192.168.7.0/24']
     base = {1: 0, 2: [(2, [65001])]}
+    if sub == 'evpn5':
+        val = {'rd': '172.16.0.1:5904', 'esi': 0, 'eth_tag_id': 100, 'prefix': '%s/%d' % (ip_any(bytes(u['pa'])), u['pl']), 'label': [u['label']]}
+        if u['gw']:
+            val['gateway'] = ip_any(bytes(u['gw']))
+        rt = [{'type': 5, 'value': val}]
+        if u['reach']:
+            base[14] = {'afi_safi': (25, 70), 'nexthop': '10.0.0.9', 'nlri': rt}
+            return base, []
+        return {15: {'afi_safi': (25, 70), 'withdraw': rt}}, []
     if sub == 'pmsievpn':
         q = u['p']
         base[14] = {'afi_safi': (25, 70), 'nexthop': '10.0.0.9', 'nlri': [{'type': 3, 'value': {'rd': '172.16.0.1:5904', 'eth_tag_id': 0, 'ip': '192.168.0.1'}}]}
